@@ -28,7 +28,7 @@ ASSUMPTIONS = ["exception classes are compared by subclass relation (e.g. IndexE
                "assigned values of another dtype are small non-negative integers so the cast is defined",
                "a result that is a memmap or based on one is reported without touching its memory"]
 EXHAUSTIVE = None
-MUST_HIT = ['mode:r/ctx:r+', 'mode:r+/ctx:r+', 'mode:r/ctx:None', 'mode:r+/ctx:r', 'ctx:nested-mixed-modes', 'ctx:live-iterator', 'write:readonly', 'setmode', 'idx:pybool', 'iter:close', 'iter:drop', 'iter:exhaust', 'idx:npint', 'idx:mask', 'idx:fullmask', 'idx:intarr', 'idx:none', 'idx:ell', 'idx:int-out-of-range', 'failed-write', 'failed-read',
+MUST_HIT = ['zero-extent-in-non-first-axis', 'mode:r/ctx:r+', 'mode:r+/ctx:r+', 'mode:r/ctx:None', 'mode:r+/ctx:r', 'ctx:nested-mixed-modes', 'ctx:live-iterator', 'write:readonly', 'setmode', 'idx:pybool', 'iter:close', 'iter:drop', 'iter:exhaust', 'idx:npint', 'idx:mask', 'idx:fullmask', 'idx:intarr', 'idx:none', 'idx:ell', 'idx:int-out-of-range', 'failed-write', 'failed-read',
             'empty-array', 'ctx:none', 'ctx:open', 'ctx:nested', 'write:otherdt', 'write:row', 'idx:badtype', 'idx:too-many',
             'write:mask']
 
@@ -85,6 +85,8 @@ def st_index(draw, shape):
 @st.composite
 def st_case(draw):
     shape = draw(gens.st_shape())
+    if len(shape) >= 2 and draw(st.sampled_from([False, False, False, False, True])):
+        shape[draw(st.integers(1, len(shape) - 1))] = 0        # empty through a non-first axis
     n = draw(st.integers(1, 6))
     acc = []
     for _ in range(n):
@@ -197,7 +199,10 @@ def execute(ctx, spec):
     with ctx.scratch() as d:
         path = os.path.join(d, 'a.darr')
         ref = gens.build_array(dt, shape, {'m': 'raw', 's': spec['seed']}).copy()
-        a = darr.asarray(path, ref, accessmode=spec['mode'])
+        if 0 in shape[1:]:
+            out.cls('zero-extent-in-non-first-axis')
+        # (an explicit chunk length: the default one is computed by dividing by the row size)
+        a = darr.asarray(path, ref, accessmode=spec['mode'], **({'chunklen': 2} if 0 in shape[1:] else {}))
         datafile = os.path.join(path, 'arrayvalues.bin')
         results = []      # (returned array, copy taken at return time)
 
@@ -449,7 +454,7 @@ def fixed_specs():
     R = [{'k': 'get', 'idx': {'t': 'slice', 'v': [None, None, None]}}, {'k': 'get', 'idx': {'t': 'slice', 'v': [0, 2, None]}},
          {'k': 'get', 'idx': {'t': 'tuple', 'v': [{'t': 'ell'}]}}, {'k': 'get', 'idx': {'t': 'intarr', 'v': [0]}}]
     X = {'k': 'exit', 'how': 'close'}
-    for shape in ([3], [1, 2], [0, 2], [4, 2, 2]):
+    for shape in ([3], [1, 2], [0, 2], [4, 2, 2], [3, 0]):
         for t, bo in (('int32', '<'), ('float32', '>')):
             base = {'dt': {'t': t, 'bo': bo}, 'shape': shape, 'seed': 12}
             for via in ('ctx', 'iter'):
@@ -458,7 +463,7 @@ def fixed_specs():
                 yield dict(base, mode='r+', ops=[{'k': 'enter', 'via': via, 'mode': 'r'}] + R + [{'k': 'enter', 'via': 'ctx', 'mode': 'r+'}, W, X, X, W] + R)
                 yield dict(base, mode='r+', ops=[{'k': 'enter', 'via': via, 'mode': 'r'}, W, X, {'k': 'setmode', 'm': 'r'}, W, {'k': 'setmode', 'm': 'r+'}, W])
                 yield dict(base, mode='r', ops=[{'k': 'enter', 'via': 'ctx', 'mode': 'r'}, {'k': 'enter', 'via': via, 'mode': 'r+'}] + R + [X, X, {'k': 'setmode', 'm': 'r+'}, W])
-    for shape in ([3], [3, 2], [0, 2], [1, 2], [3, 1, 2], [3, 2, 2, 2]):
+    for shape in ([3], [3, 2], [0, 2], [1, 2], [3, 1, 2], [3, 2, 2, 2], [3, 0], [2, 0, 4]):
         for t, bo in (('int16', '>'), ('float64', '<'), ('complex64', '>'), ('uint8', '<')):
             for c in comps:
                 for ctxm in ('none', 'open', 'nested'):
